@@ -355,13 +355,14 @@ def check_laws(li, code, nodw, mk):
                {"l": i, "r": j})
 
 
-def _eval_tree(hed_text, handlers):
-    """Search every compiled query twice on one annotation object; check repeatability and no mutation."""
+def _eval_tree(hed_text, handlers, handlers2=None):
+    """Search every compiled query twice on one annotation object; check repeatability and no mutation.
+    handlers2: the same query texts compiled a SECOND time in this process (used for the repeated search)."""
     from hed import HedString
     hs = HedString(hed_text, _schema())
     before = snapshot(hs)
     code = [search(h, hs) for h in handlers]
-    again = [search(h, hs) for h in reversed(handlers)][::-1]
+    again = [search(h, hs) for h in reversed(handlers2 or handlers)][::-1]
     after = snapshot(hs)
     return code, again, before == after, (before[0], after[0])
 
@@ -387,14 +388,19 @@ def _gen_worker(job):
         if fi not in hcache:
             texts = [q_text(q, style=fi % 2, andtok="," if fi % 3 == 2 else "&&", bare=bool(fi % 2))
                      for q in fam["cq_cased"]]
-            hs_, bad = [], None
+            hs_, hs2_, bad = [], [], None
             for t in texts:
                 h, oc = compile_query(t)
                 if h is None and bad is None:
                     bad = (t, oc)
                 hs_.append(h)
-            hcache[fi] = (texts, hs_, bad)
-        texts, handlers, bad = hcache[fi]
+            for t in texts:                 # ... and every text once more (compiling is repeatable too)
+                h2, oc2 = compile_query(t)
+                if h2 is None and bad is None:
+                    bad = (t, oc2)
+                hs2_.append(h2)
+            hcache[fi] = (texts, hs_, bad, hs2_)
+        texts, handlers, bad, handlers2 = hcache[fi]
         if bad:
             # a query the grammar (and the model's parser) accepts is refused: its documented meaning is unavailable
             out["problems"].append(_rejected(bad))
@@ -405,7 +411,7 @@ def _gen_worker(job):
             tx = [None if l == "grp" else forms[l][rng.randrange(len(forms[l]))] for l in lab]
             return tree_string(par, tx, sep=rng.choice([", ", ","]))
         s = concrete(tr["par"], tr["lab"])
-        code, again, same, strs = _eval_tree(s, handlers)
+        code, again, same, strs = _eval_tree(s, handlers, handlers2)
         exp = tr["res"]
         nodw = tr["nodw"]
         out["n"] += len(code)
@@ -471,17 +477,22 @@ def _deep_worker(job):
     for c in cases:
         v = c["verdict"]
         texts = c["texts"]
-        handlers, bad = [], None
+        handlers, handlers2, bad = [], [], None
         for t in texts:
             h, oc = compile_query(t)
             if h is None and bad is None:
                 bad = (t, oc)
             handlers.append(h)
+        for t in texts:
+            h2, oc2 = compile_query(t)
+            if h2 is None and bad is None:
+                bad = (t, oc2)
+            handlers2.append(h2)
         if bad:
             out["problems"].append(_rejected(bad))
             continue
         s, s2 = c["hed"], c["hed2"]
-        code, again, same, strs = _eval_tree(s, handlers)
+        code, again, same, strs = _eval_tree(s, handlers, handlers2)
         out["n"] += len(code)
 
         def mk(kind, key, text, ix, hed2=None):
